@@ -829,6 +829,7 @@ impl crate::util::ser::Writeable for LegacyChannelConfig {
 			(4, self.announce_for_forwarding, required),
 			(5, self.options.max_dust_htlc_exposure, required),
 			(6, self.commit_upfront_shutdown_pubkey, required),
+			(7, self.options.accept_underpaying_htlcs, (default_value, false)),
 			(8, self.options.forwarding_fee_base_msat, required),
 		});
 		Ok(())
@@ -845,6 +846,7 @@ impl crate::util::ser::Readable for LegacyChannelConfig {
 		let mut commit_upfront_shutdown_pubkey = false;
 		let mut forwarding_fee_base_msat = 0;
 		let mut max_dust_htlc_exposure_enum = None;
+		let mut accept_underpaying_htlcs = false;
 		read_tlv_fields!(reader, {
 			(0, forwarding_fee_proportional_millionths, required),
 			// Has always been written, but became optionally read in 0.0.116
@@ -854,6 +856,7 @@ impl crate::util::ser::Readable for LegacyChannelConfig {
 			(4, announce_for_forwarding, required),
 			(5, max_dust_htlc_exposure_enum, option),
 			(6, commit_upfront_shutdown_pubkey, required),
+			(7, accept_underpaying_htlcs, (default_value, false)),
 			(8, forwarding_fee_base_msat, required),
 		});
 		let max_dust_htlc_exposure_msat_fixed_limit =
@@ -868,7 +871,7 @@ impl crate::util::ser::Readable for LegacyChannelConfig {
 				cltv_expiry_delta,
 				force_close_avoidance_max_fee_satoshis,
 				forwarding_fee_base_msat,
-				accept_underpaying_htlcs: false,
+				accept_underpaying_htlcs,
 			},
 			announce_for_forwarding,
 			commit_upfront_shutdown_pubkey,
